@@ -97,6 +97,8 @@ type Decoder struct {
 	granted int
 	// listGranted counts the bytes preallocated for slices on the strength of wire counts (see preallocList)
 	listGranted int
+	// converted: see rememberConverted
+	converted map[convertedKey]interface{}
 	// depth counts the containers being decoded, one inside the other (see enter)
 	depth int
 	Error error
@@ -291,6 +293,7 @@ func (dec *Decoder) Reset() *Decoder {
 	dec.ref = dec.ref[:0]
 	dec.granted = 0
 	dec.listGranted = 0
+	dec.converted = nil
 	return dec
 }
 
